@@ -335,7 +335,7 @@ func run(c *runner.Ctx) {
 func pre(tier string) ([]string, error) {
 	bin := filepath.Join(runner.VerifDir, ".build", "injector-cli-c07")
 	cmd := exec.Command("go", "build", "-o", bin, ".")
-	cmd.Dir = "/repo"
+	cmd.Dir = runner.RepoDir
 	cmd.Env = append(os.Environ(), "GOFLAGS=-mod=mod", "GOPROXY=off", "GOSUMDB=off", "GOTOOLCHAIN=local")
 	if out, err := cmd.CombinedOutput(); err != nil {
 		return nil, fmt.Errorf("building the CLI from /repo: %v\n%s", err, out)
